@@ -144,6 +144,10 @@ def _operations() -> dict:
         "simplify(q + q)": lambda q: sp.simplify(q + q),
         "N(q)": lambda q: sp.N(q),
         "print": lambda q: (code_str(q), latex_str(q), str(q)),
+        # an anonymous copy prints as "<SI value to 3 digits>*<SI units>": a read path of its own
+        "str(Quantity(1*q))": lambda q: str(Quantity(1 * q)),
+        "str(Quantity(q**2))": lambda q: str(Quantity(q**2)),
+        "str(Quantity(1/q))": lambda q: str(Quantity(1 / q)),
     }
 
 
@@ -172,6 +176,16 @@ def operation_histories(consts: dict, ref: dict) -> list:
                         msgs.append(f"{opname} answers {num!r} for {n}, SI value {val!r}")
                 except (TypeError, ValueError):
                     msgs.append(f"{opname} answers {short(r)} for {n}, which is not a number")
+            power = {"str(Quantity(1*q))": 1, "str(Quantity(q**2))": 2, "str(Quantity(1/q))": -1}.get(
+                opname)
+            if power is not None and isinstance(r, str):
+                import re
+                m_ = re.match(r"^\s*(-?\d+(?:\.\d*)?(?:[eE][+-]?\d+)?)", r)
+                val = _si_value(q)**power
+                if m_ is None:
+                    msgs.append(f"{opname} prints {r!r} for {n}: no leading SI value")
+                elif abs(float(m_.group(1)) - val) > 6e-3 * abs(val):
+                    msgs.append(f"{opname} prints {r!r} for {n}, SI value {val!r}")
             if r is q and opname.startswith(("Quantity(", "evaluate_quantity(")):
                 msgs.append(f"{opname} returned the catalogue object itself instead of a new quantity")
             out.append((opname, n, "; ".join(f"after {opname}: {m}" for m in msgs)))
